@@ -21,7 +21,7 @@ Proof.
     + cbn [micro big]. rewrite Hr. reflexivity.
   - cbn [micro big]. destruct (ready d) eqn:Hr; [|reflexivity].
     destruct (base_ok o) eqn:Hb; cbn [andb].
-    + rewrite base_refines; auto; [|now apply wf_ids]. destruct (step7 (d_st d) o); reflexivity.
+    + rewrite base_refines; auto; [|now apply wf_ids]. destruct (step (d_st d) o); reflexivity.
     + destruct o; try discriminate; reflexivity.
   - cbn [micro big]. destruct (ready d); reflexivity.
   - cbn [micro big]. destruct (ready d); reflexivity.
